@@ -122,6 +122,55 @@ def check_cfg(ctx, fx, cfg):
     ctx.floor("R17.5", "futures erased into JoinFuture (%s)" % cfg, n_j, 1)
 
 
+def task_trait(fx):
+    """(trait def, {method: [impl fn records]}) of the crate-local trait behind `ActorHandle`'s boxed task object
+    (`Box<dyn SpawnedTask<A>>` with `join` / `detach`), when the handle holds one instead of a boxed join closure"""
+    ah = fx.adts.get("actor::spawner::actor_handle::ActorHandle")
+    if not ah:
+        return None
+    import re
+    for fl in ah["variants"][0]["fields"]:
+        m = re.match(r"alloc::boxed::Box<dyn ([\w:]+)<", fl["ty"])
+        if m and m.group(1) in {tr["def"] for tr in fx.d["traits"]}:
+            tr = m.group(1)
+            impls = {}
+            for g in fx.d["fns"]:
+                if g.get("impl_trait_def") == tr and g["kind"] == "assoc_fn":
+                    impls.setdefault(g["def"].split("::")[-1], []).append(g)
+            return tr, impls
+    return None
+
+
+def handle_parts(ctx, fx, f):
+    """for a Spawner::spawn_actor implementation f: (join implementation, detach implementation or None) — the closures given
+    to `ActorHandle::new(join_fn)` / `.with_detach_fn(detach_fn)`, or the `join` / `detach` methods of the task object given
+    to a constructor of the handle (`ActorHandle::from_task(SmolTask(slot))`)"""
+    b = ctx.body(fx, f)
+    join = detach = None
+    mk = [t for _, t in b.normal_calls() if fx.callee_fn(t) is not None and (fx.callee_fn(t).get("output") or "").startswith("actor::spawner::actor_handle::ActorHandle<") and (fx.callee_fn(t).get("impl_self") or "").startswith("actor::spawner::actor_handle::ActorHandle<")]
+    tt = task_trait(fx)
+    for t in mk:
+        for a in t["args"]:
+            for o in b.origins(a):
+                if o.kind != "agg":
+                    continue
+                r = b.blocks[o.site[0]]["s"][o.site[1]]["r"]
+                if r.get("ak") == "closure" and fx.fn(r.get("def") or "") is not None:
+                    if (t.get("callee") or "").endswith("::with_detach_fn"):
+                        detach = fx.fn(r["def"])
+                    elif join is None:
+                        join = fx.fn(r["def"])
+                elif r.get("ak") == "adt" and tt is not None:
+                    for meth, impls in tt[1].items():
+                        for g in impls:
+                            if (g.get("impl_self") or "").split("<")[0] == r.get("def"):
+                                if meth == "join":
+                                    join = g
+                                elif meth == "detach":
+                                    detach = g
+    return join, detach, mk
+
+
 def check_join(ctx, fx, cfg, RULE):
     spawners = [f for f in fx.impl_fns("actor::spawner::Spawner") if f["def"].endswith("::spawn_actor")]
     ctx.floor(RULE, "Spawner::spawn_actor impls (%s)" % cfg, len(spawners), 1)
@@ -138,14 +187,9 @@ def check_join(ctx, fx, cfg, RULE):
         crate, sem = runtimes.handle_kind(sp[0][1]["destty"])
         ctx.require(crate is not None, RULE, inst + ":known-handle", "unknown runtime task handle type %s: its join/drop semantics must be confirmed" % sp[0][1]["destty"][:60], fn=f["def"], site=sp[0][1]["l"], detail={"handle": sp[0][1]["destty"][:80], "drop": sem})
         # the join closure: passed to ActorHandle::new
-        newc = [t for _, t in b.normal_calls() if t.get("callee") == "actor::spawner::actor_handle::ActorHandle::<A>::new"]
-        if not ctx.require(len(newc) == 1, RULE, inst + ":handle-built", "ActorHandle::new not called", fn=f["def"], site=f["loc"]):
+        jc, _dc, mk_ = handle_parts(ctx, fx, f)
+        if not ctx.require(len(mk_) >= 1, RULE, inst + ":handle-built", "ActorHandle::new not called", fn=f["def"], site=f["loc"]):
             continue
-        jdef = None
-        for o in b.origins(newc[0]["args"][0]):
-            if o.kind == "agg":
-                jdef = b.blocks[o.site[0]]["s"][o.site[1]]["r"].get("def")
-        jc = fx.fn(jdef) if jdef else None
         if not ctx.require(jc is not None, RULE, inst + ":join-closure", "join closure not found", fn=f["def"], site=f["loc"]):
             continue
         jb = ctx.body(fx, jc)
@@ -252,6 +296,10 @@ def check_forwarding(ctx, fx, cfg):
     if ctx.require(ahj is not None, "R17.3", "ActorHandle::join@" + cfg, "ActorHandle::join not found"):
         gb = ctx.body(fx, ahj)
         ind = [t for _, t in gb.normal_calls() if (t.get("callee") or "").endswith(("FnMut::call_mut", "Fn::call", "FnOnce::call_once")) and "[Output=core::pin::Pin<alloc::boxed::Box<dyn core::future::future::Future + [Output=core::option::Option<A>]" in " ".join(t["argtys"])]
+        tt_ = task_trait(fx)
+        if not ind and tt_ is not None:
+            # the handle holds a task object: `self.task.join()` on its boxed field
+            ind = [t for _, t in gb.normal_calls() if t.get("trait") == tt_[0] and (t.get("callee") or "").endswith("::join") and all(r.kind == "arg" for r in roots(gb, t["args"][0]))]
         ok = len(ind) == 1 and (ind[0]["dest"] == [0] or any(s["k"] == "ret" for s in sinks(gb, ind[0]["dest"][0])))
         ctx.require(ok, "R17.3", "ActorHandle::join@" + cfg, "ActorHandle::join must invoke its join function and return that future", fn=ahj["def"], site=ahj["loc"])
     one_call("addr::OwningAddr::<A>::consume", "addr::OwningAddr::<A>::join", "consume-joins")
